@@ -15,6 +15,10 @@ such a decorator, the reads that are NOT determined by the key:
                 (``global G``) or mutates, when that function is reachable
                 from a strategy's ``reduce`` or from the checker's entry
                 points, i.e. it changes while the table lives
+``shared``      the function returns a mutable container (dict / list / set
+                display) and some caller in the package modifies the value it
+                got (``f()[k].pop(..)``, ``x = f(); x[k] = v``): the table
+                hands the modified object to every later caller
 ``structural``  a parameter whose class defines ``__eq__`` (equal keys for
                 distinct objects) while the body reads ``.id`` of it or of
                 something reached from it
@@ -127,6 +131,82 @@ def _runtime_written_globals(prog):
     return res
 
 
+def _mutable_result(f):
+    for r in walk_no_nested(f):
+        if isinstance(r, ast.Return) and r.value is not None:
+            v = r.value
+            if isinstance(v, (ast.Dict, ast.List, ast.Set, ast.DictComp,
+                              ast.ListComp, ast.SetComp)) or (
+                    isinstance(v, ast.Call) and (call_name(v) or '') in (
+                        'dict', 'list', 'set', 'collections.OrderedDict',
+                        'collections.defaultdict')):
+                return True
+            if isinstance(v, ast.Name):
+                for st in walk_no_nested(f):
+                    if isinstance(st, ast.Assign) and any(
+                            isinstance(t, ast.Name) and t.id == v.id
+                            for t in st.targets) and isinstance(
+                                st.value, (ast.Dict, ast.List, ast.Set,
+                                           ast.DictComp, ast.ListComp,
+                                           ast.SetComp)):
+                        return True
+    return False
+
+
+def _chain_root(e):
+    while isinstance(e, (ast.Attribute, ast.Subscript)):
+        e = e.value
+    return e
+
+
+def _result_mutations(prog, m, f):
+    """(module, function, node, text) for every place where a caller
+    modifies the value a call of f returned"""
+    if not _mutable_result(f):
+        return []
+    out = []
+    fname = f.name
+    for cm in prog.pkg_modules():
+        for q2, g in cm.funcs.items():
+            holders = set()
+            for st in walk_no_nested(g):
+                if isinstance(st, ast.Assign) and isinstance(
+                        st.value, ast.Call):
+                    fn = st.value.func
+                    nm = fn.id if isinstance(fn, ast.Name) else (
+                        fn.attr if isinstance(fn, ast.Attribute) else None)
+                    if nm == fname:
+                        for t in st.targets:
+                            if isinstance(t, ast.Name):
+                                holders.add(t.id)
+
+            def is_result(root):
+                if isinstance(root, ast.Call):
+                    fn = root.func
+                    nm = fn.id if isinstance(fn, ast.Name) else (
+                        fn.attr if isinstance(fn, ast.Attribute) else None)
+                    return nm == fname
+                return isinstance(root, ast.Name) and root.id in holders
+
+            for x in walk_no_nested(g):
+                if isinstance(x, ast.Call) and isinstance(
+                        x.func, ast.Attribute) and x.func.attr in MUTATORS \
+                        and is_result(_chain_root(x.func.value)):
+                    out.append((cm, g, x, f'"{unparse(x)[:50]}"'))
+                tg = []
+                if isinstance(x, ast.Assign):
+                    tg = x.targets
+                elif isinstance(x, ast.AugAssign):
+                    tg = [x.target]
+                elif isinstance(x, ast.Delete):
+                    tg = x.targets
+                for t in tg:
+                    if isinstance(t, ast.Subscript) and is_result(
+                            _chain_root(t)):
+                        out.append((cm, g, x, f'"{unparse(x)[:50]}"'))
+    return out
+
+
 def _class_has_eq(prog, m, f):
     cls = getattr(f, '_class', None)
     if cls is None:
@@ -159,6 +239,13 @@ def findings(prog, only=None, wopts=None, wglob=None):
                 if isinstance(x, ast.Name) and isinstance(
                         x.ctx, ast.Store):
                     local.add(x.id)
+            # local names bound to the option namespace
+            optalias = {t.id for st in walk_no_nested(ff)
+                        if isinstance(st, ast.Assign) and isinstance(
+                            st.value, ast.Call) and (call_name(st.value)
+                                                     or '').endswith(
+                                                         'options.args')
+                        for t in st.targets if isinstance(t, ast.Name)}
             for x in walk_no_nested(ff):
                 if isinstance(x, ast.Call):
                     nm = call_name(x) or ''
@@ -183,9 +270,11 @@ def findings(prog, only=None, wopts=None, wglob=None):
                             if g is not None and not memo_deco(g):
                                 scan(r[1], g, via + [f'{r[1].name}.{r[2]}'],
                                      depth + 1)
-                if isinstance(x, ast.Attribute) and isinstance(
+                alias = isinstance(x, ast.Attribute) and isinstance(
+                    x.value, ast.Name) and x.value.id in optalias
+                if isinstance(x, ast.Attribute) and (alias or (isinstance(
                         x.value, ast.Call) and (call_name(x.value) or ''
-                                                ).endswith('options.args') \
+                                                ).endswith('options.args'))) \
                         and isinstance(x.ctx, ast.Load) and x.attr in wopts:
                     wm, wst = wopts[x.attr][0]
                     out.append(Finding(
@@ -201,6 +290,41 @@ def findings(prog, only=None, wopts=None, wglob=None):
                         f'{sorted(wglob[(mm.name, x.id)])[0]})', x, via))
 
         scan(m, f, [], 0)
+        # the cached value is a mutable container and a caller modifies it:
+        # every later caller gets the modified object
+        for (cm, cf, node, how) in _result_mutations(prog, m, f) \
+                if only is None else []:
+            out.append(Finding(
+                m, q, f, deco, 'shared',
+                f'the cached container is modified by a caller ({how} at '
+                f'{cm.loc(node)}): all later callers see the change',
+                node, []))
+        # the cached value is (or contains) a newly built object of a class
+        # of the package, or of a class chosen dynamically: one instance for
+        # all callers
+        if only is None:
+            for r in walk_no_nested(f):
+                if not (isinstance(r, ast.Return) and r.value is not None):
+                    continue
+                for c in ast.walk(r.value):
+                    if not isinstance(c, ast.Call):
+                        continue
+                    dyn = isinstance(c.func, ast.Call) and (
+                        call_name(c.func) or '') == 'getattr'
+                    cls_ = False
+                    if isinstance(c.func, ast.Name):
+                        try:
+                            rr = prog.resolve_name(m, c.func.id)
+                        except Exception:
+                            rr = None
+                        cls_ = bool(rr and rr[0] == 'class')
+                    if dyn or cls_:
+                        out.append(Finding(
+                            m, q, f, deco, 'shared',
+                            f'"{unparse(c)[:40]}" builds an object that the '
+                            'table hands to every caller: what one caller '
+                            'sets on it (a mutator configured for one pass) '
+                            'is seen by all others', c, []))
         # structural key vs identity read
         if _class_has_eq(prog, m, f) and f.args.args and deco not in (
                 'functools.cached_property', 'cached_property'):
